@@ -252,6 +252,7 @@ func (e *Engine) lookupNative(fi *FnInfo) *Native {
 	case "sync/atomic.AddUint64", "sync/atomic.AddInt64", "sync/atomic.AddUint32", "sync/atomic.AddInt32":
 		return visible(func(e *Engine, s *State, gi int, args []Value) Value {
 			p := args[0].(Ptr)
+			e.raceAtomic(s, gi, p)
 			e.raceBoth(s, gi, "at"+ptrKey(p))
 			v := ts.BV(OpAdd, e.cellInt(s, p), args[1].(*Term))
 			e.store(s, p, v)
@@ -909,6 +910,51 @@ func (e *Engine) intrinsic(fi *FnInfo) *Native {
 				return ts.Const(64, uint64(len(e.obj(s, v.obj).ch.buf)))
 			}
 			panic(engineErr("vfFieldLen: unsupported field kind"))
+		})
+	case "vfFieldGetUint", "vfFieldSetUint":
+		// read / write an integer field reached through named (possibly unexported) fields; works for
+		// plain integers and for sync/atomic typed integers (their "v" field)
+		isSet := fi.fn.Name() == "vfFieldSetUint"
+		return simple(func(e *Engine, s *State, gi int, args []Value) Value {
+			x := args[0].(Iface)
+			path, _ := args[1].(string)
+			ptr := x.v.(Ptr)
+			t := x.t.Underlying().(*types.Pointer).Elem()
+			for _, name := range strings.Split(path, ".") {
+				st, ok := t.Underlying().(*types.Struct)
+				if !ok {
+					panic(engineErr("vfField*: not a struct at " + name))
+				}
+				idx := -1
+				for i := 0; i < st.NumFields(); i++ {
+					if st.Field(i).Name() == name {
+						idx = i
+					}
+				}
+				if idx < 0 {
+					panic(engineErr("vfField*: no field " + name))
+				}
+				ptr = subPtr(ptr, []int{idx})
+				t = st.Field(idx).Type()
+			}
+			if st, ok := t.Underlying().(*types.Struct); ok {
+				// atomic.Uint64 and friends
+				for i := 0; i < st.NumFields(); i++ {
+					if st.Field(i).Name() == "v" {
+						ptr = subPtr(ptr, []int{i})
+						t = st.Field(i).Type()
+					}
+				}
+			}
+			w, _, ok := intWidth(t)
+			if !ok {
+				panic(engineErr("vfField*: not an integer field"))
+			}
+			if isSet {
+				e.store(s, ptr, e.toW(args[2].(*Term), w, false))
+				return nil
+			}
+			return e.toW(e.load(s, ptr).(*Term), 64, false)
 		})
 	case "vfTypeName":
 		return simple(func(e *Engine, s *State, gi int, args []Value) Value {
